@@ -428,6 +428,6 @@ def build(chk: Check) -> None:
     chk.sub("introspection", o_introspect, enum=lambda tier: [{}], exhaustive_tiers=("quick", "thorough"))
     chk.sub("binary_enum", o_geom, enum=e_binary, exhaustive_tiers=("thorough",), budget_s={"quick": 80, "thorough": 900})
     chk.sub("nary_enum", o_geom, enum=e_nary, exhaustive_tiers=("quick", "thorough"), budget_s={"quick": 80, "thorough": 900})
-    chk.sub("generated", o_geom, strategy=s_generated(), n={"quick": 3000, "thorough": 200000})
+    chk.sub("generated", o_geom, cov={"quick": 1500, "thorough": 120000}, strategy=s_generated(), n={"quick": 3000, "thorough": 200000})
     chk.sub("bbox_enum", o_bbox, enum=e_bbox, exhaustive_tiers=("quick", "thorough"))
     chk.sub("gbox_enum", o_gbox, enum=e_gbox, exhaustive_tiers=("quick", "thorough"))
